@@ -11,6 +11,13 @@ from proto import bitsf, fbits, run_lines
 MATCHERS = {}
 
 
+def regen_leaves():
+    """CmGen/Leaves.lean: the numeric functions and constants of the source as they read now (the `source_*`
+    theorems of CmProps/C11tie.lean identify them with the model)"""
+    from translate import leaves
+    leaves.generate()
+
+
 def gen_pairs(rng, n):
     out = []
     for _ in range(n):
@@ -34,7 +41,9 @@ def gen_pairs(rng, n):
 
 
 def check(run):
-    run.proof = proof_status("C11")
+    run.proof = proof_status("C11", regenerate=regen_leaves)
+    from translate import leaves as _leaves
+    run.extra["source_translation"] = _leaves.summary()
     q = run.quick()
     repo_import()
     from cm_colors.core import conversions as cv, color_metrics as cmx
